@@ -127,7 +127,7 @@ PROPS = {
         "exhaustive_part": "per sampled configuration every entry point x form x subset of optional sections",
     },
     "C05": {
-        "engine": "mlw",
+        "engine": ["mlw", "sock"],
         "level_text": "Lean 4 theorems C05.framing / refines_spec / invariant_reachable: for every capacity (0 and 1 included), terminator, history of emits/flushes + drop and every oracle, each attempted underlying write is a frame; the concrete writer refines the pending-lines spec. Model tied to the code by the correspondence check on every run.",
         "level_note": _WRITER_NOTE,
         "technique": "Lean 4 proof (inductive invariant + refinement to a pending-lines specification) + model/implementation correspondence",
@@ -267,7 +267,7 @@ PROPS = {
         "exhaustive_part": "all interleavings of the listed program sets (thorough: uncapped)",
     },
     "C19": {
-        "engine": "mlw",
+        "engine": ["mlw", "sock", "queue"],
         "level_text": "Lean 4 theorems C19.write_only_when_needed / flush_writes_only_pending / emits_are_greedy / greedy_is_minimal / greedy_groups_fit: writes happen only when forced, emit runs produce the in-order greedy packing, which is minimal among all in-order packings.",
         "level_note": _WRITER_NOTE,
         "technique": "Lean 4 proof (refinement + greedy-packing minimality by induction) + model/implementation correspondence",
@@ -292,11 +292,11 @@ PROPS = {
 MANIFEST_ENGINES = [
     {"name": "macros", "path": "harness/src/bin/macros.rs", "serves_properties": ["C17", "C20"],
      "kind_free_text": "the seven statsd_*! macros with counting-block arguments, one fresh child process per global-client configuration"},
-    {"name": "sock", "path": "harness/src/bin/sock.rs", "serves_properties": ["C06", "C07", "C12", "C13", "C14", "C20"],
+    {"name": "sock", "path": "harness/src/bin/sock.rs", "serves_properties": ["C05", "C06", "C07", "C12", "C13", "C14", "C19", "C20"],
      "kind_free_text": "socket sinks on real loopback UDP / Unix datagram sockets with a reading peer; multi-threaded runs; lock-contention scenario"},
     {"name": "holder", "path": "harness/src/bin/holder.rs", "serves_properties": ["C18"],
      "kind_free_text": "SingletonHolder under a controlled scheduler through the cfg(cadence_verif) shim"},
-    {"name": "queue", "path": "harness/src/bin/queue.rs", "serves_properties": ["C06", "C08", "C09", "C10", "C11", "C14", "C15", "C16", "C20"],
+    {"name": "queue", "path": "harness/src/bin/queue.rs", "serves_properties": ["C06", "C08", "C09", "C10", "C11", "C14", "C15", "C16", "C19", "C20"],
      "kind_free_text": "drives QueuingMetricSink / its builder with a gated scripted wrapped sink recording thread id, call order, handler calls and its own Drop; plus free-running multi-producer stress"},
     {"name": "fmt", "path": "harness/src/bin/fmt.rs", "serves_properties": ["C01", "C02", "C03", "C04", "C20"],
      "kind_free_text": "drives StatsdClient (24 entry points x 3 call forms x builder options), the standalone constructors, a scripted MetricSink and a recording error handler"},
